@@ -37,7 +37,7 @@ inductive Res where
   | bytes (n : Nat)      -- recv / recv_stderr returned n bytes
   | sockClosed           -- socket.error("Socket is closed")
   | timeout              -- socket.timeout
-  | doneAll (handed : Nat)   -- sendall returned None; ghost: bytes this call handed to the transport
+  | doneAll (handed total : Nat)   -- sendall returned None; ghosts: bytes this call handed over / was given
   deriving Repr, DecidableEq
 
 /-- bookkeeping of one `sendall` call: `rem = len(s)` at the loop head; ghosts `handed`, `total` -/
@@ -154,7 +154,7 @@ def kontState : Kont → TSt
   | .retNone => .idle .none
   | .retBytes n => .idle (.bytes n)
   | .loop l ext n =>
-    if l.rem - n = 0 then .idle (.doneAll (l.handed + n))
+    if l.rem - n = 0 then .idle (.doneAll (l.handed + n) l.total)
     else .loopHead { rem := l.rem - n, handed := l.handed + n, total := l.total } ext
 
 def holdOrDone (s : St) (t : Nat) (ms : List Msg) (k : Kont) : St :=
@@ -239,7 +239,7 @@ def step (cfg : Cfg) (s : St) : Act → St
   | .send t n ext => if idleOf s t then sendRegion cfg s t n ext none else s
   | .sendall t n ext =>
     if idleOf s t then
-      if n = 0 then setThr s t (.idle (.doneAll 0))
+      if n = 0 then setThr s t (.idle (.doneAll 0 0))
       else setThr s t (.loopHead { rem := n, handed := 0, total := n } ext)
     else s
   | .iter t =>
